@@ -842,6 +842,22 @@ func checkDet(cs *fw.Case, t elemT, A *la.Mat, o detOpts, d float64, out outcome
 	}
 	lu := la.Factor(A)
 	ref := lu.Det()
+	lref, labs := lu.LogAbsDet()
+	// representable range of the element type (natural logs; smallest NORMAL number)
+	logMax, logMin := 709.0, -708.0
+	if t.F32 {
+		logMax, logMin = 88.0, -87.0
+	}
+	if math.IsInf(ref, 0) || ref == 0 || math.Abs(ref) < 1e-300 {
+		// the reference product left the float64 range: rebuild it from the logarithm
+		sgn := lu.Sign
+		for i := 0; i < n; i++ {
+			if lu.F.At(i, i) < 0 {
+				sgn = -sgn
+			}
+		}
+		ref = sgn * math.Exp(lref)
+	}
 	exact := false
 	if A.IsIntegral() {
 		ref = bigToFloat(la.Bareiss(A))
@@ -853,21 +869,31 @@ func checkDet(cs *fw.Case, t elemT, A *la.Mat, o detOpts, d float64, out outcome
 		w["reference"] = "LU with partial pivoting (float64)"
 	}
 	w["det_ref"] = ref
+	w["logdet_ref"] = lref
 	w["observed"] = d
 	if o.Log {
-		lref, labs := lu.LogAbsDet()
 		if A.IsIntegral() {
 			lref = math.Log(math.Abs(ref))
 		}
 		tol := cLog * float64(n) * t.Eps * (kappa + labs)
 		e := math.Abs(d - lref)
 		ratioKey(cs.C, "logdet", e, tol)
-		w["logdet_ref"] = lref
 		w["tol"] = tol
 		if !(e <= tol) {
 			return verdict{Kind: "value", Detail: fmt.Sprintf("n=%d: log-determinant %.17g, log of the reference determinant %.17g, |diff| %.3g > tol %.3g", n, d, lref, e, tol), Wit: w}
 		}
 		return verdict{Wit: w}
+	}
+	if !exact {
+		if lref > logMax-2 || lref < logMin+7 {
+			// the true determinant over- or underflows (or is at the edge of) the
+			// range of the element type: Inf / 0 / a denormal are legitimate, not judged
+			cs.Cover("det:true-value-out-of-range")
+			return verdict{Wit: w}
+		}
+		if d == 0 || math.IsInf(d, 0) || math.IsNaN(d) {
+			return verdict{Kind: "range", Detail: fmt.Sprintf("n=%d: determinant %g although the true value (sign * exp(%.6g)) is well inside the range of %s", n, d, lref, t.Name), Wit: w}
+		}
 	}
 	e := math.Abs(d - ref)
 	if exact {
@@ -877,13 +903,19 @@ func checkDet(cs *fw.Case, t elemT, A *la.Mat, o detOpts, d float64, out outcome
 		}
 		return verdict{Wit: w}
 	}
-	tol := cDet * float64(n) * t.Eps * kappa * math.Abs(ref)
+	tol := cDet * float64(n) * t.Eps * (kappa + math.Abs(lref)) * math.Abs(ref)
 	if !o.PD {
 		// the documented algorithm is the cofactor expansion: its textbook
 		// forward error is gamma_n * perm(|A|), which is not a backward error
 		// in the sense of LU; it is granted on top (DESIGN.md 2.4: "what a
 		// textbook evaluation of the formula loses")
-		pa := la.PermanentAbs(A)
+		// (evaluated on A / max|a_ij| so that the bound itself does not overflow)
+		mx := A.MaxAbs()
+		An := A.Clone()
+		for i := range An.A {
+			An.A[i] /= mx
+		}
+		pa := la.PermanentAbs(An) * math.Exp(float64(n)*math.Log(mx))
 		tol += cDet * float64(n) * t.Eps * pa
 		w["perm(|A|)"] = pa
 	}
@@ -1201,8 +1233,42 @@ func Run(c *fw.Ctx) {
 			is = &determinant.InSitu{}
 			ncalls = 2
 		}
+		// scaled operands A*s and larger n (own random stream: the operands of the
+		// unit-scale cases are what they were): the determinant leaves the float
+		// range, the log-determinant must not
+		sr := prng.For(cs.C.Seed, "det.scale", cs.Index)
+		scale, scaleClass := 1.0, ""
+		switch k := sr.Intn(10); {
+		case k < 4 && structure != "integer":
+			if t.F32 {
+				scale = []float64{1e-30, 1e-15, 1e-5, 1e5, 1e15, 1e30}[sr.Intn(6)]
+			} else {
+				scale = []float64{1e-200, 1e-100, 1e-30, 1e-8, 1e8, 1e30, 1e100, 1e200}[sr.Intn(8)]
+			}
+		case k == 4 && structure == "spd":
+			// the Cholesky routes are O(n^3): larger n is affordable there
+			o.PD = true
+			o.Log = sr.Chance(0.7)
+			n = []int{12, 24, 48}[sr.Intn(3)]
+			if t.F32 {
+				scale = []float64{1e-3, 1, 1e3}[sr.Intn(3)]
+			} else {
+				scale = []float64{1e-6, 1e-3, 1, 1e3, 1e6}[sr.Intn(5)]
+			}
+			scaleClass = "n>=12"
+		}
+		if scale < 1 {
+			scaleClass = classString(scaleClass, "scale=tiny")
+		} else if scale > 1 {
+			scaleClass = classString(scaleClass, "scale=huge")
+		}
+		cs.Cover(fmt.Sprintf("det-scale:%s/%g", map[bool]string{true: "32-bit", false: "64-bit"}[t.F32], scale))
 		for call := 0; call < ncalls; call++ {
-			A := image(t, genMatrix(structure, n, t, r))
+			A0 := genMatrix(structure, n, t, r)
+			for i := range A0.A {
+				A0.A[i] *= scale
+			}
+			A := image(t, A0)
 			callClass := ""
 			if is != nil {
 				callClass = []string{"first-use", "reused"}[call]
@@ -1242,8 +1308,8 @@ func Run(c *fw.Ctx) {
 			if o.PD {
 				sc = "spd"
 			}
-			wit := merge(map[string]any{"A": A.Rows(), "type": t.Name, "opts": o.String(), "structure": structure, "call": callClass}, v.Wit)
-			cs.Violation(sig("det", "determinant", opts, t.Name, classString(sc, callClass), v.Kind),
+			wit := merge(map[string]any{"A": A.Rows(), "type": t.Name, "opts": o.String(), "structure": structure, "call": callClass, "scale": scale}, v.Wit)
+			cs.Violation(sig("det", "determinant", opts, t.Name, classString(sc, scaleClass, callClass), v.Kind),
 				fmt.Sprintf("determinant(%s) %s %s", o.String(), t.Name, v.Detail), wit)
 		}
 	})
